@@ -103,8 +103,8 @@ def run(tier):
             bad('parse(build(response))', 'built_response_rejected_by_h11', case, {'h11': r['error'], 'raw': raw[:120]})
     # ---- law 2: parse(build(parse(y))) == parse(y), and h11-valid, over the message corpus
     for m in httpgen.corpus('thorough' if thorough else 'quick'):
-        if m.trailing:
-            continue
+        if m.trailing or m.features.get('obs_fold'):
+            continue        # (obsolete line folding is only part of the segmentation corpus of C03)
         n += 1
         ptype = httpParserTypes.REQUEST_PARSER if m.kind == 'request' else httpParserTypes.RESPONSE_PARSER
         case = {'message': m.raw[:200], 'class': m.features.get('class')}
